@@ -56,6 +56,11 @@ def check(run, t, label):
             run.violation("node map is injective on retained nodes", desc, {used[v]: int(v), u: int(v)}, "distinct")
             return
         used[v] = u
+        want_flags = (int(t.nodes.flags[u]) & ~1) | (1 if u in samples else 0) if opts.get("update_sample_flags", True) else int(t.nodes.flags[u])
+        if int(out.nodes.flags[v]) != want_flags:
+            run.violation("a mapped node keeps its flags except the sample bit, which is set exactly for the requested samples",
+                          desc, {u: hex(int(out.nodes.flags[v]))}, hex(want_flags))
+            return
         if out.nodes.time[v] != t.nodes.time[u] or out.nodes[v].metadata != t.nodes[u].metadata:
             run.violation("a mapped node keeps its time and metadata", desc, (u, int(v), out.nodes.time[v]), t.nodes.time[u])
             return
@@ -68,7 +73,7 @@ def check(run, t, label):
         if not all(node_map[u] == u for u in range(n)):
             run.violation("filter_nodes=False keeps node ids", desc, list(map(int, node_map)), list(range(n)))
     ssamples = [int(node_map[s]) for s in samples]
-    if sorted(O.samples_of(out)) != sorted(ssamples):
+    if sorted(u for u, f in enumerate(out.nodes.flags) if int(f) & 1) != sorted(ssamples):
         run.violation("the output samples are exactly the requested nodes", desc, O.samples_of(out), sorted(ssamples))
     # genealogy: MRCA of every pair of samples at every position (not under reduce_to_site_topology)
     pts = sorted(set(O.breakpoints(t)[:-1] + O.breakpoints(out)[:-1]))
@@ -126,6 +131,12 @@ def main():
     for k in range(N):
         t = O.random_tables(run.rng, sites=True, individuals=(k % 4 == 0), populations=(k % 3 == 0), max_breaks=3)
         t.edges.drop_metadata()       # documented: simplify refuses edges with metadata
+        if k % 2 == 0 and t.nodes.num_rows:
+            fl = t.nodes.flags.copy()
+            for u in range(len(fl)):
+                if run.rng.random() < 0.4:
+                    fl[u] |= run.rng.choice([1 << 17, 1 << 18, 1 << 20, 1 << 31])
+            t.nodes.flags = fl
         try:
             check(run, t, "seed=%d case=%d" % (run.seed, k))
         except tskit.LibraryError as e:
